@@ -217,6 +217,49 @@ class SourceFile:
             e = nl + 1 if nl >= 0 else len(self.text)
         return Cut(self.text[s:e], self.rel, line_of(self.text, s), desc or ("block /%s/" % start_re))
 
+    def closure_arg(self, call_re, lo=0, hi=None, nth=1, desc=None):
+        """R7: the closure passed as the (only) argument of the call matched by call_re, e.g.
+        r"\.map_infix\(".  Returns (params_text, body Cut) -- body is the text after `|params|`
+        (and an optional `-> T`) up to the call's closing parenthesis."""
+        hi = len(self.text) if hi is None else hi
+        ms = [m for m in re.finditer(call_re, self.masked[lo:hi])]
+        if len(ms) < nth:
+            raise Undecided("call /%s/ (#%d) not found in %s" % (call_re, nth, self.rel))
+        op = lo + ms[nth - 1].end() - 1
+        if self.masked[op] != "(":
+            raise Undecided("call_re must end at the opening parenthesis: /%s/" % call_re)
+        cp = match_brace(self.masked, op, "(", ")")
+        inner = self.masked[op + 1:cp]
+        m = re.match(r"\s*(?:move\s+)?\|([^|]*)\|\s*(?:->\s*[^\{]+?)?(?=\{|\S)", inner)
+        if not m:
+            raise Undecided("argument of /%s/ is not a closure" % call_re)
+        bs = op + 1 + m.end()
+        body = self.text[bs:cp].rstrip()
+        c = Cut(body, self.rel, line_of(self.text, bs), desc or ("closure passed to /%s/" % call_re))
+        return m.group(1).strip(), c
+
+    def stmt(self, start_re, lo=0, hi=None, nth=1, desc=None):
+        """The statement that starts at the nth match of start_re and ends at the first `;` at nesting depth 0."""
+        hi = len(self.text) if hi is None else hi
+        ms = [m for m in re.finditer(start_re, self.masked[lo:hi], re.M)]
+        if len(ms) < nth:
+            raise Undecided("statement /%s/ (#%d) not found in %s" % (start_re, nth, self.rel))
+        s = lo + ms[nth - 1].start()
+        depth = 0
+        j = s
+        while j < hi:
+            ch = self.masked[j]
+            if ch in "([{":
+                depth += 1
+            elif ch in ")]}":
+                depth -= 1
+                if depth < 0:
+                    raise Undecided("statement /%s/ not terminated in %s" % (start_re, self.rel))
+            elif ch == ";" and depth == 0:
+                break
+            j += 1
+        return Cut(self.text[s:j + 1], self.rel, line_of(self.text, s), desc or ("stmt /%s/" % start_re))
+
     def braced_after(self, start_re, lo=0, hi=None, nth=1, desc=None):
         """The statement starting at the line matching start_re through the brace
         block that the match opens (first `{` after the match start)."""
